@@ -446,6 +446,42 @@ def run(ctx: Any, prog: Program) -> None:
             ok = (isinstance(n.exc, ast.Call) and dotted(n.exc.func) == 'self.error') or \
                  (isinstance(n.exc, ast.Call) and dotted(n.exc.func) == 'ValueError' and _guarded_by_nonstr(tk, n))
             ctx.check('C03.K5', ok, tk, n, '_next_char may raise only self.error(...) or ValueError for non-str chunks (outside the property: inputs are str)')
+    # error(message, *args) treats a str message as a str.format template.  Text that comes from the document must therefore travel in the
+    # arguments, never in the template: a `{` in a token value makes format() raise ValueError/KeyError/IndexError instead of the syntax error.
+    def template_hazard(e: ast.AST, fn_: ast.AST, depth: int = 0) -> Optional[ast.AST]:
+        params_ = {a.arg for a in fn_.args.args + fn_.args.kwonlyargs}          # type: ignore[attr-defined]
+        if isinstance(e, ast.Constant):
+            return None
+        if isinstance(e, ast.IfExp):
+            return template_hazard(e.body, fn_, depth) or template_hazard(e.orelse, fn_, depth)
+        if isinstance(e, ast.BinOp) and isinstance(e.op, ast.Add):
+            return template_hazard(e.left, fn_, depth) or template_hazard(e.right, fn_, depth)
+        if isinstance(e, ast.JoinedStr):
+            for v in e.values:
+                if isinstance(v, ast.FormattedValue) and not (isinstance(v.value, ast.Name) and v.value.id in params_) and not isinstance(v.value, ast.Constant):
+                    return v
+            return None
+        if isinstance(e, ast.Name) and depth < 3:
+            defs_ = [a.value for a in walk_no_nested(fn_) if isinstance(a, (ast.Assign, ast.AugAssign)) and any(dotted(t) == e.id for t in (a.targets if isinstance(a, ast.Assign) else [a.target]))]
+            for d_ in defs_:
+                if isinstance(d_, (ast.Constant, ast.IfExp, ast.BinOp, ast.JoinedStr, ast.Name)):
+                    h_ = template_hazard(d_, fn_, depth + 1)
+                    if h_ is not None:
+                        return h_
+            return None            # a parameter or a token unpacked from the stream: error() accepts a Token in place of the message
+        return None
+    n_tmpl = 0
+    for modx, quals in ((tk, [q for q in tk.all_funcs() if q.startswith(('BaseTokenizer.', 'Tokenizer.'))]), (kv, ['Keyvalues.parse'])):
+        for q_ in quals:
+            for fn_ in (modx.all_funcs().get(q_) or []):
+                for c in walk_no_nested(fn_):
+                    if isinstance(c, ast.Call) and isinstance(c.func, ast.Attribute) and c.func.attr == 'error' and c.args and not isinstance(c.args[0], ast.Starred):
+                        n_tmpl += 1
+                        hz = template_hazard(c.args[0], fn_)
+                        ctx.check('C03.K5', hz is None, modx, c, f'{q_} builds the error template at run time from `{U(hz)[:40] if hz is not None else ""}`: error() passes the template to str.format(), so a brace in that text raises '
+                                  'ValueError/KeyError/IndexError instead of the syntax error (document text belongs in the format arguments)', func=q_, text=f'{q_}: error template `{U(c.args[0])[:40]}` is constant')
+    if n_tmpl < 20:
+        raise AnalysisError(f'only {n_tmpl} error(...) calls found in the tokenizer and Keyvalues.parse (28 confirmed by hand)')
     err = tk.func('BaseTokenizer.error')
     rets = [n for n in walk_no_nested(err) if isinstance(n, ast.Return)]
     ok = len(rets) == 1 and isinstance(rets[0].value, ast.Call) and dotted(rets[0].value.func) == 'self.error_type'
@@ -602,6 +638,8 @@ def _guarded_by_nonstr(mod: Any, n: ast.AST) -> bool:
 
 
 MUTANTS = [
+    {'id': 'expect_error_template_from_token_text', 'file': 'tokenizer.py', 'find': "            raise self.error(\n                'Expected {}, but got {}!',\n                token,\n                next_token,\n            )", 'replace': "            message = 'Expected {}, but got {}'\n            if next_token.has_value:\n                message += f' = \"{value}\"'\n            raise self.error(message + '!', token, next_token)", 'expect': 'C03.K5'},
+    {'id': 'ok_expect_error_value_as_argument', 'file': 'tokenizer.py', 'find': "            raise self.error(\n                'Expected {}, but got {}!',\n                token,\n                next_token,\n            )", 'replace': "            raise self.error('Expected {}, but got {} = \"{}\"!', token, next_token, value)", 'expect': None},
     {'id': 'cython_refill_strips_bom', 'file': '_tokenizer.pyx', 'find': "            if len(<str>chunk_obj) > 0:\n                self.cur_chunk = chunk_obj", 'replace': "            if self.line_num == 1 and (<str>chunk_obj).startswith('\\uFEFF'):\n                chunk_obj = (<str>chunk_obj)[1:]\n            if len(<str>chunk_obj) > 0:\n                self.cur_chunk = chunk_obj", 'expect': 'C03.K8'},
     {'id': 'expect_block_without_append', 'file': 'keyvalues.py', 'find': "                    block_line = BLOCK_LINE_EXPECT\n                    can_flag_replace = False\n                    cur_block_contents.append(keyvalue)\n", 'replace': "                    block_line = BLOCK_LINE_EXPECT\n                    can_flag_replace = False\n", 'expect': 'C03.K5'},
     {'id': 'flag_replace_unguarded_index', 'file': 'keyvalues.py', 'find': "                            can_flag_replace and\n                            cur_block_contents and\n                            cur_block_contents[-1]._real_name == token_value and\n                            cur_block_contents[-1].has_children()", 'replace': "                            can_flag_replace and\n                            cur_block_contents[-1]._real_name == token_value and\n                            cur_block_contents[-1].has_children()", 'expect': 'C03.K5'},
